@@ -17,7 +17,7 @@ P=duckscript/src/parser.rs; R=duckscript/src/runner.rs; E=duckscript/src/expansi
 S=duckscript_sdk/src
 run C01 $P "                    if character == ' ' || character == '=' {
                         index -= 1;" "                    if character == '=' {
-                        index -= 1;" CAUGHT
+                        index -= 1;" SILENT
 run C01 $P "    let mut line_number = 1;" "    let mut line_number = 0;" CAUGHT
 run C01 $P "let trimmed_text = line_text.trim();" "let trimmed_text = line_text.trim_matches(' ');" CAUGHT
 run C02 $R "ExpandedValue::None => arguments.push(\"\".to_string())," "ExpandedValue::None => ()," CAUGHT
@@ -58,7 +58,7 @@ run C08 $P "Err(ScriptError::MissingEndQuotes(meta_info.clone()))" "Ok((index, S
 run C09 $S/utils/eval.rs "        if argument.is_empty() {
             line_buffer.push_str(\"\\\"\\\"\");" "        if argument.is_empty() {
             line_buffer.push_str(\"\");" CAUGHT
-run C10 $S/sdk/std/on_error/on_error/mod.rs "sub_state.insert(\"line\".to_string(), StateValue::String(line));" "sub_state.insert(\"line\".to_string(), StateValue::String(source.clone()));" CAUGHT
+run C10 $S/sdk/std/on_error/on_error/mod.rs "sub_state.insert(\"line\".to_string(), StateValue::String(line));" "sub_state.insert(\"line\".to_string(), StateValue::String(format!(\"{}0\", line)));" CAUGHT
 run C11 $S/utils/scope.rs "            variables.clear();
 
             for (key, value) in new_variables {
@@ -96,9 +96,11 @@ run C17 $S/sdk/std/json/parse/mod.rs "        Value::Null => None,
 run C18 $S/sdk/std/fs/rm/mod.rs "                } else if recursive {
                     fs::remove_dir_all(&path)
                 } else {
-                    fs::remove_dir(&path)" "                } else {
-                    fs::remove_dir_all(&path)" CAUGHT
-run C19 $S/types/command.rs "            clear(&self.scope_name, context.variables);" "            let _ = &self.scope_name;" CAUGHT
+                    fs::remove_dir(&path)" "                } else if recursive || true {
+                    fs::remove_dir_all(&path)
+                } else {
+                    fs::remove_dir(&path)" CAUGHT
+run C19 $S/types/command.rs "            clear(&self.scope_name, context.variables);" "            clear(\"scope::nothing\", context.variables);" CAUGHT
 run C20 duckscript_cli/src/main.rs "            println!(\"Error: {}\", error);
             exit(1);" "            println!(\"Error: {}\", error);
             exit(0);" CAUGHT
